@@ -419,6 +419,94 @@ def oracle_corrupt(case, ctx):
     ctx.fail(f'{case["base"]} corrupted by {case["label"]} was accepted and built an environment', {'kind': 'corruption_accepted', 'label': case['label'].split('[')[0]})
 
 
+# ------------------------------------------------------------------ (5b) a registered name that is bound again (notebook reload, plug-in update)
+
+_REBOUND = [0]
+
+
+def enum_rebound(tier, shard, nshards):
+    for i, kind in enumerate(['reward', 'terminating', 'transition', 'reset']):
+        for j, second_first in enumerate((False, True)):
+            if (2 * i + j) % nshards == shard:
+                yield {'kind': kind, 'second_first': second_first}
+
+
+def oracle_rebound(case, ctx):
+    """a user-defined component is registered, obtained by name, then the name is deleted and registered again for a function with other
+    parameter names and another required parameter: what the factory hands out must be the function the name denotes *now*"""
+    kind = case['kind']
+    factory, registry = FACTORIES[kind]
+    _REBOUND[0] += 1
+    name = f'verif_component_{kind}_{_REBOUND[0]}'
+    from gym_gridverse.geometry import Shape
+    from gym_gridverse.grid import Grid
+    from gym_gridverse.agent import Agent
+    from gym_gridverse.geometry import Orientation, Position
+    from gym_gridverse.state import State
+
+    if kind == 'reward':
+        def one(state, action, next_state, *, bonus: float, scale: float = 1.0, rng=None):
+            return bonus * scale
+
+        def two(state, action, next_state, *, penalty: float, offset: float, rng=None):
+            return -penalty + offset
+        call = lambda f: f(None, None, None)  # noqa: E731
+    elif kind == 'terminating':
+        def one(state, action, next_state, *, flag: bool, rng=None):
+            return bool(flag)
+
+        def two(state, action, next_state, *, threshold: int, value: int = 3, rng=None):
+            return value >= threshold
+        call = lambda f: f(None, None, None)  # noqa: E731
+    elif kind == 'transition':
+        def one(state, action, *, steps: int, rng=None):
+            state.agent.position = Position(state.agent.position.y, state.agent.position.x + steps)
+
+        def two(state, action, *, rows: int, cols: int = 0, rng=None):
+            state.agent.position = Position(state.agent.position.y + rows, state.agent.position.x + cols)
+
+        def call(f):
+            s = State(Grid.from_shape((3, 9)), Agent(Position(0, 0), Orientation.F, None))
+            f(s, None)
+            return (s.agent.position.y, s.agent.position.x)
+    else:
+        def one(*, width: int, rng=None):
+            return State(Grid.from_shape((2, width)), Agent(Position(0, 0), Orientation.F, None))
+
+        def two(*, height: int, depth: int = 2, rng=None):
+            return State(Grid.from_shape((height, depth)), Agent(Position(0, 0), Orientation.R, None))
+        call = lambda f: objs.canon_state(f())  # noqa: E731
+    params = {'reward': ({'bonus': 2.0, 'scale': 1.5}, {'penalty': 1.0, 'offset': 4.0}), 'terminating': ({'flag': True}, {'threshold': 5}),
+              'transition': ({'steps': 2}, {'rows': 1, 'cols': 3}), 'reset': ({'width': 4}, {'height': 3})}[kind]
+    fns = [(one, params[0]), (two, params[1])]
+    if case['second_first']:
+        fns.reverse()
+    try:
+        for k, (fn, kw) in enumerate(fns):
+            if name in registry:
+                del registry[name]
+            registry.register(fn, name=name)
+            made = guarded(ctx, f'{kind} factory for a user component (binding number {k + 1} of the name)', factory, name, **kw)
+            got, exp = call(made), call(functools.partial(fn, **kw))
+            if got != exp:
+                ctx.fail(f'{kind} factory("{name}", **{kw}) after the name was bound {"again" if k else "first"}: behaves like {got}, the function registered under the name gives {exp}',
+                         {'kind': 'factory', 'component': kind, 'aspect': 'rebound'})
+            required = [p.name for p in inspect.signature(fn).parameters.values() if p.default is inspect.Parameter.empty and p.name not in ('state', 'action', 'next_state')]
+            for r in required:
+                try:
+                    factory(name, **{a: b for a, b in kw.items() if a != r})
+                except ValueError:
+                    pass
+                except Exception as e:  # noqa: BLE001
+                    ctx.fail(f'{kind} factory("{name}") without required "{r}" raised {type(e).__name__}, not ValueError', {'kind': 'factory_reject', 'aspect': 'rebound'})
+                else:
+                    ctx.fail(f'{kind} factory("{name}") accepted a call without the parameter "{r}" that the function bound to the name now requires', {'kind': 'factory_reject', 'aspect': 'rebound'})
+    finally:
+        if name in registry:
+            del registry[name]
+    ctx.ev.case(case, nt=True, classes=['rebound:' + kind])
+
+
 CHECKS = [
     Check('packaged_and_registry', oracle_files, enumerate=enum_files, shards={'quick': 4, 'thorough': 4}, exhaustive=True,
           rule='every registered gym id: packaged copy byte-identical to yaml/, registry entry points to the packaged file of its name, file validates and builds'),
@@ -435,4 +523,7 @@ CHECKS = [
           required=['unaccepted_param', 'falsy_param', 'parameters_out_of_signature_order'] + [f'name:{k}:{n}' for k, (_, reg) in FACTORIES.items() for n in BUILTIN_NAMES[k]]),
     Check('corruptions', oracle_corrupt, enumerate=enum_corrupt, shards={'quick': 8, 'thorough': 16}, exhaustive=True,
           rule='every shipped file x every systematic corruption (unknown component names at every position, each required parameter deleted, missing sections, malformed shapes/layouts, unknown/duplicate/empty colours, objects and actions, unknown object types and distance functions): SchemaError or ValueError'),
+    Check('rebound_names', oracle_rebound, enumerate=enum_rebound, shards={'quick': 2, 'thorough': 2}, exhaustive=True,
+          rule='reward, terminating, transition and reset registries: a user component registered under a name, obtained through the factory, the name deleted and registered again for a function with other parameters (both orders): behaves like the function the name denotes now; its required parameters are enforced',
+          required=['rebound:reward', 'rebound:reset']),
 ]
